@@ -1,5 +1,159 @@
-From Coq Require Import List.
-From PTN Require Import Bip.Model.
+(* Property C14 — the bipartite vertex cover is a cover and has maximum-matching size.
+   Statements only; each is closed by `exact`.  The model is Bip/Model.v (BipartiteGraph,
+   HopcroftKarp, minimum_vertex_cover, _explore_alternating_paths of
+   pytreenet/ttno/bipartite_graph.py), the proofs are in Bip/ModelProofs.v.
+
+   STATE OF THE PROOFS: everything planned in DESIGN.md section 5 / C14 is proved for all
+   inputs, including the two "target" theorems (no augmenting path when the outer loop
+   stops; Koenig cover size = matching size).  The size equality is therefore NOT a
+   per-instance obligation: C14_mvc_main states that the code's own
+   `assert len(u_cover) + len(v_cover) == len(matching)` holds for every accepted input,
+   and that cover and matching are minimum resp. maximum.  All fuel bounds of the model
+   are shown sufficient (C14_koenig_fuel_suffices, C14_hk_fuel_suffices, C14_mvc_main), so
+   the model's `None` (fuel exhausted) is unreachable on accepted inputs.
+
+   Vocabulary (ModelProofs): edges_ok nu nv edges = every entry (u,v) has u < nu, v < nv
+   (the constructor's asserts); is_matching M = no U vertex and no V vertex occurs twice;
+   covers E cu cv = every (u,v) in E has u in cu or v in cv; functional_on_u M = every U
+   vertex occurs at most once as a first component. *)
+From Coq Require Import ZArith List Arith.
+From PTN Require Import Bip.Model Bip.ModelProofs.
 Import ListNotations.
-Example C14_example : True. Proof. exact I. Qed.
-Print Assumptions C14_example.
+
+(* ---- the constructor ------------------------------------------------------------------ *)
+(* adjacency lists = the edge set (duplicates suppressed), both directions consistent *)
+Theorem C14_constructor_adjacency : forall nu nv edges, edges_ok nu nv edges ->
+  let g := mk_graph nu nv edges in
+  num_u g = nu /\ num_v g = nv /\ wf g /\
+  (forall u v, In v (adjU g u) <-> In (u, v) edges) /\
+  (forall u v, In u (adjV g v) <-> In (u, v) edges).
+Proof. exact mk_graph_spec. Qed.
+Print Assumptions C14_constructor_adjacency.
+
+(* the model accepts exactly the inputs that pass the constructor's asserts *)
+Theorem C14_constructor_accepts : forall nu nv edges,
+  let nedges := map (fun e => (Z.to_nat (fst e), Z.to_nat (snd e))) edges in
+  ((1 <= nu)%Z /\ (1 <= nv)%Z /\
+   (forall e, In e edges -> (0 <= fst e < nu)%Z /\ (0 <= snd e < nv)%Z)) ->
+  build nu nv edges = Some (mk_graph (Z.to_nat nu) (Z.to_nat nv) nedges) /\
+  edges_ok (Z.to_nat nu) (Z.to_nat nv) nedges.
+Proof. exact build_spec. Qed.
+Print Assumptions C14_constructor_accepts.
+
+Theorem C14_constructor_rejects : forall nu nv edges,
+  ~ ((1 <= nu)%Z /\ (1 <= nv)%Z /\
+     (forall e, In e edges -> (0 <= fst e < nu)%Z /\ (0 <= snd e < nv)%Z)) ->
+  build nu nv edges = None.
+Proof. exact build_reject. Qed.
+Print Assumptions C14_constructor_rejects.
+
+(* ---- (1) the Koenig construction, for ANY matching list handed to it -------------------- *)
+(* the exploration fuel num_u + 1 always suffices *)
+Theorem C14_koenig_fuel_suffices : forall nu nv edges M, edges_ok nu nv edges ->
+  exists cu cv, koenig (mk_graph nu nv edges) M = Some (cu, cv).
+Proof. exact koenig_fuel_suffices. Qed.
+Print Assumptions C14_koenig_fuel_suffices.
+
+(* both returned lists contain only existing vertices, each once *)
+Theorem C14_mvc_in_range : forall nu nv edges M cu cv, edges_ok nu nv edges ->
+  koenig (mk_graph nu nv edges) M = Some (cu, cv) ->
+  (forall u, In u cu -> u < nu) /\ (forall v, In v cv -> v < nv) /\ NoDup cu /\ NoDup cv.
+Proof. exact mvc_in_range. Qed.
+Print Assumptions C14_mvc_in_range.
+
+(* they touch every edge, as soon as the matching uses every U vertex at most once *)
+Theorem C14_mvc_is_cover : forall nu nv edges M cu cv, edges_ok nu nv edges -> functional_on_u M ->
+  koenig (mk_graph nu nv edges) M = Some (cu, cv) -> covers edges cu cv.
+Proof. exact mvc_is_cover. Qed.
+Print Assumptions C14_mvc_is_cover.
+
+(* ---- (2) Hopcroft-Karp ------------------------------------------------------------------ *)
+(* the fuel of BFS (2 num_u + 2), DFS (num_u + 3) and of the outer loop (num_u + 1) suffices *)
+Theorem C14_hk_fuel_suffices : forall nu nv edges, edges_ok nu nv edges ->
+  exists M, hopcroft_karp (mk_graph nu nv edges) = Some M.
+Proof. exact hk_fuel_suffices. Qed.
+Print Assumptions C14_hk_fuel_suffices.
+
+(* every returned pair is an edge, no vertex is used twice *)
+Theorem C14_hk_valid_matching : forall nu nv edges M, edges_ok nu nv edges ->
+  hopcroft_karp (mk_graph nu nv edges) = Some M -> is_matching M /\ incl M edges.
+Proof. exact hk_valid_matching. Qed.
+Print Assumptions C14_hk_valid_matching.
+
+(* ---- (3) weak duality -------------------------------------------------------------------- *)
+Theorem C14_weak_duality : forall (M : list (nat * nat)) (cu cv : list nat),
+  is_matching M -> covers M cu cv -> length M <= length cu + length cv.
+Proof. exact weak_duality. Qed.
+Print Assumptions C14_weak_duality.
+
+Theorem C14_equal_sizes_optimal : forall (E M : list (nat * nat)) (cu cv : list nat),
+  is_matching M -> incl M E -> covers E cu cv -> length cu + length cv = length M ->
+  (forall M', is_matching M' -> incl M' E -> length M' <= length M) /\
+  (forall cu' cv', covers E cu' cv' -> length cu + length cv <= length cu' + length cv').
+Proof. exact equal_sizes_optimal. Qed.
+Print Assumptions C14_equal_sizes_optimal.
+
+(* ---- (4) the targets ----------------------------------------------------------------------- *)
+(* when the outer loop stops there is no augmenting path: every V vertex adjacent to a U vertex
+   that is reachable from an unmatched U vertex by an alternating walk is matched *)
+Theorem C14_hk_no_augmenting_path : forall nu nv edges M, edges_ok nu nv edges ->
+  hopcroft_karp (mk_graph nu nv edges) = Some M ->
+  forall u v, areach (mk_graph nu nv edges) M u -> In (u, v) edges -> exists u', In (u', v) M.
+Proof. exact hk_no_augmenting_path_edges. Qed.
+Print Assumptions C14_hk_no_augmenting_path.
+
+(* the code's own size assert can never fail *)
+Theorem C14_mvc_size_eq_matching : forall nu nv edges r, edges_ok nu nv edges ->
+  mvc (mk_graph nu nv edges) = Some r ->
+  r_assert r = true /\ length (r_ucover r) + length (r_vcover r) = length (r_matching r).
+Proof. exact mvc_size_eq_matching. Qed.
+Print Assumptions C14_mvc_size_eq_matching.
+
+(* ---- the property ------------------------------------------------------------------------- *)
+(* minimum_vertex_cover on every accepted input: returns (no fuel exhaustion, no AssertionError);
+   the matching is a valid matching of the graph; the cover lists are in range, duplicate free,
+   touch every edge, have together the size of the matching; no larger matching and no smaller
+   cover exist *)
+Theorem C14_mvc_main : forall nu nv edges, edges_ok nu nv edges ->
+  exists r, mvc (mk_graph nu nv edges) = Some r /\ r_assert r = true /\
+    is_matching (r_matching r) /\ incl (r_matching r) edges /\
+    (forall u, In u (r_ucover r) -> u < nu) /\ (forall v, In v (r_vcover r) -> v < nv) /\
+    NoDup (r_ucover r) /\ NoDup (r_vcover r) /\
+    covers edges (r_ucover r) (r_vcover r) /\
+    length (r_ucover r) + length (r_vcover r) = length (r_matching r) /\
+    (forall M', is_matching M' -> incl M' edges -> length M' <= length (r_matching r)) /\
+    (forall cu' cv', covers edges cu' cv' ->
+       length (r_ucover r) + length (r_vcover r) <= length cu' + length cv').
+Proof. exact mvc_main. Qed.
+Print Assumptions C14_mvc_main.
+
+(* ---- the correspondence's equality tests are sound ------------------------------------------ *)
+Theorem C14_all_eqb_sound : forall a b, all_eqb a b = true -> a = b.
+Proof. exact all_eqb_eq. Qed.
+Print Assumptions C14_all_eqb_sound.
+
+Theorem C14_koenig_eqb_sound : forall a b, koenig_eqb a b = true -> a = b.
+Proof. exact koenig_eqb_eq. Qed.
+Print Assumptions C14_koenig_eqb_sound.
+
+(* ---- non-vacuity ----------------------------------------------------------------------------- *)
+(* a 3x3 graph with a duplicate entry: two phases, one augmentation through a matched vertex *)
+Example C14_example_run :
+  run_all 3 3 [(0,0); (0,1); (1,0); (2,2); (1,0); (2,1)]%Z =
+  Some ([[0; 1]; [0]; [2; 1]]%Z, [[0; 1]; [0; 2]; [2]]%Z,
+        Some ([(0, 1); (1, 0); (2, 2)]%Z, [0; 1; 2]%Z, []%Z, true, [])).
+Proof. vm_compute. reflexivity. Qed.
+Print Assumptions C14_example_run.
+
+(* a graph whose minimum cover mixes both sides; U vertex 3 is isolated and starts an exploration *)
+Example C14_example_mixed :
+  run_all 4 3 [(0,0); (1,0); (2,0); (2,1); (2,2)]%Z =
+  Some ([[0]; [0]; [0; 1; 2]; []]%Z, [[0; 1; 2]; [2]; [2]]%Z,
+        Some ([(0, 0); (2, 1)]%Z, [2]%Z, [0]%Z, true,
+              [(1, [1; 0], [0]); (3, [3], [])]%Z)).
+Proof. vm_compute. reflexivity. Qed.
+Print Assumptions C14_example_mixed.
+
+Example C14_example_hypotheses : edges_ok 4 3 [(0,0); (1,0); (2,0); (2,1); (2,2)].
+Proof. intros u v H. simpl in H. repeat (destruct H as [H|H]; [inversion H; subst; split; auto with arith|]). destruct H. Qed.
+Print Assumptions C14_example_hypotheses.
